@@ -237,8 +237,11 @@ impl Eq for Rule {}
 
 impl fmt::Display for Rule {
     fn fmt(&self, f: &mut fmt::Formatter<'_>) -> fmt::Result {
-        let fmtted = serde_json::to_string_pretty(self).unwrap();
-        write!(f, "{}", fmtted)
+        // a `Custom(_)` strategy is skipped by serde and cannot be serialised
+        match serde_json::to_string_pretty(self) {
+            Ok(fmtted) => write!(f, "{}", fmtted),
+            Err(_) => write!(f, "{:?}", self),
+        }
     }
 }
 
